@@ -11,13 +11,13 @@ From V Require Import Base Callback Callback_proofs ReqUri ReqUri_proofs CorrBas
    the same record, redeem succeeded with a non-empty e-mail, a validator passed; the session is
    (redeemed e-mail, req.Host) and Location is the record's redirect URI.  In every other case the
    answer is an error page (CbPage), which by construction carries no session cookie. *)
-Theorem C06_callback_decision : forall canon key r s loc,
-  oauth_callback canon key r = CbOk s loc <-> accepts canon key r s loc.
+Theorem C06_callback_decision : forall canon strict key r s loc,
+  oauth_callback canon strict key r = CbOk s loc <-> accepts canon strict key r s loc.
 Proof. exact callback_ok_iff. Qed.
 Print Assumptions C06_callback_decision.
 
-Theorem C06_no_session_otherwise : forall canon key r,
-  (forall s loc, ~ accepts canon key r s loc) -> exists st, oauth_callback canon key r = CbPage st.
+Theorem C06_no_session_otherwise : forall canon strict key r,
+  (forall s loc, ~ accepts canon strict key r s loc) -> exists st, oauth_callback canon strict key r = CbPage st.
 Proof. exact callback_page_otherwise. Qed.
 Print Assumptions C06_no_session_otherwise.
 
@@ -27,16 +27,34 @@ Print Assumptions C06_no_session_otherwise.
    issued): a callback sets a session only if state and cookie spell two values ISSUED BY THIS PROXY,
    are different strings (and, with canonical decoding, different ciphertexts: different nonces),
    redeem succeeded with a non-empty e-mail, a validator passed, the saved session has
-   upstream = Host — and EITHER both open to a flow f this proxy started and Location = f's recorded
-   URI, OR both are sealed SESSIONS (which open as the empty record) and Location is empty.
+   upstream = Host, both open to ONE flow record f that this proxy started, and Location = f's
+   recorded URI.
 
-   The full statement of DESIGN §6 (always the first alternative:
-     ... -> exists f, In f (w_flows w) /\ p1 = PFlow f /\ p2 = PFlow f /\ loc = f_redirect f)
-   is FALSE of the faithful model, see C06_session_only_for_own_flow_refuted (known finding C06-K2). *)
-Theorem C06_session_only_for_own_flow_partial : forall canon key evs r s loc,
-  admissible canon key init_world (evs ++ [ECallback r]) = true ->
-  oauth_callback canon key r = CbOk s loc ->
-  let w := run canon key init_world evs in
+   This full statement holds when the callback refuses a state record with an empty session id
+   ([strict = true]: the three-line repair proposed in docs/notes/C06.md) ... *)
+Theorem C06_session_only_for_own_flow : forall canon key evs r s loc,
+  admissible canon true key init_world (evs ++ [ECallback r]) = true ->
+  oauth_callback canon true key r = CbOk s loc ->
+  let w := run canon true key init_world evs in
+  exists v1 n1 f v2 n2 email,
+    In f (w_flows w) /\
+    cb_state r = WEnc v1 (Seal key n1 (PFlow f)) /\ cb_cookie r = Some (WEnc v2 (Seal key n2 (PFlow f))) /\
+    In (Seal key n1 (PFlow f)) (w_issued w) /\ In (Seal key n2 (PFlow f)) (w_issued w) /\
+    WEnc v1 (Seal key n1 (PFlow f)) <> WEnc v2 (Seal key n2 (PFlow f)) /\
+    (canon = true -> v1 = 0 /\ v2 = 0 /\ n1 <> n2) /\
+    cb_code r <> [] /\ cb_redeem r = RedeemOk email /\ email <> [] /\ cb_valid r = true /\
+    s = {| s_email := email; s_upstream := cb_host r |} /\ loc = f_redirect f.
+Proof. exact session_only_for_own_flow. Qed.
+Print Assumptions C06_session_only_for_own_flow.
+
+(* ... and is FALSE of the faithful model of the unchanged tree ([strict = false]; known finding
+   C06-K2): two sealed SESSIONS of this proxy, which open "as" the empty record, pass as state and
+   CSRF cookie.  What does hold today, for every history: own flow, or that confusion with an empty
+   Location. *)
+Theorem C06_session_only_for_own_flow_partial : forall canon strict key evs r s loc,
+  admissible canon strict key init_world (evs ++ [ECallback r]) = true ->
+  oauth_callback canon strict key r = CbOk s loc ->
+  let w := run canon strict key init_world evs in
   exists v1 n1 p1 v2 n2 p2 email,
     cb_state r = WEnc v1 (Seal key n1 p1) /\ cb_cookie r = Some (WEnc v2 (Seal key n2 p2)) /\
     In (Seal key n1 p1) (w_issued w) /\ In (Seal key n2 p2) (w_issued w) /\
@@ -44,32 +62,32 @@ Theorem C06_session_only_for_own_flow_partial : forall canon key evs r s loc,
     (canon = true -> v1 = 0 /\ v2 = 0 /\ n1 <> n2) /\
     cb_code r <> [] /\ cb_redeem r = RedeemOk email /\ email <> [] /\ cb_valid r = true /\
     s = {| s_email := email; s_upstream := cb_host r |} /\
-    own_flow_or_confusion w p1 p2 loc.
+    own_flow_or_confusion strict w p1 p2 loc.
 Proof. exact session_only_for_own_flow_partial. Qed.
 Print Assumptions C06_session_only_for_own_flow_partial.
 
 Theorem C06_session_only_for_own_flow_refuted :
   exists canon key evs r s loc,
-    admissible canon key init_world (evs ++ [ECallback r]) = true /\
-    oauth_callback canon key r = CbOk s loc /\
-    ~ exists f v n, In f (w_flows (run canon key init_world evs)) /\ cb_state r = WEnc v (Seal key n (PFlow f)).
+    admissible canon false key init_world (evs ++ [ECallback r]) = true /\
+    oauth_callback canon false key r = CbOk s loc /\
+    ~ exists f v n, In f (w_flows (run canon false key init_world evs)) /\ cb_state r = WEnc v (Seal key n (PFlow f)).
 Proof. exact session_only_for_own_flow_refuted. Qed.
 Print Assumptions C06_session_only_for_own_flow_refuted.
 
 (* Flows started by different requests are different records (fresh ids) even for the same URL,
    and flow A's state with flow B's cookie is always answered with an error page. *)
-Theorem C06_cross_flow_rejected : forall canon key evs i j fa fb r v1 n1 v2 n2,
-  let w := run canon key init_world evs in
+Theorem C06_cross_flow_rejected : forall canon strict key evs i j fa fb r v1 n1 v2 n2,
+  let w := run canon strict key init_world evs in
   nth_error (w_flows w) i = Some fa -> nth_error (w_flows w) j = Some fb -> i <> j ->
   cb_state r = WEnc v1 (Seal key n1 (PFlow fa)) ->
   cb_cookie r = Some (WEnc v2 (Seal key n2 (PFlow fb))) ->
-  exists st, oauth_callback canon key r = CbPage st.
+  exists st, oauth_callback canon strict key r = CbPage st.
 Proof. exact cross_flow_rejected. Qed.
 Print Assumptions C06_cross_flow_rejected.
 
 (* "different strings" means "different ciphertexts" when decoding is canonical ... *)
-Theorem C06_distinct_ciphertexts : forall key r s loc,
-  oauth_callback true key r = CbOk s loc ->
+Theorem C06_distinct_ciphertexts : forall strict key r s loc,
+  oauth_callback true strict key r = CbOk s loc ->
   exists c1 c2, cb_state r = WEnc 0 c1 /\ cb_cookie r = Some (WEnc 0 c2) /\ c1 <> c2.
 Proof. exact distinct_ciphertexts. Qed.
 Print Assumptions C06_distinct_ciphertexts.
@@ -78,7 +96,7 @@ Print Assumptions C06_distinct_ciphertexts.
    ciphertext, spelled twice, passes the inequality test. *)
 Theorem C06_distinct_ciphertexts_refuted :
   exists key c r s loc,
-    oauth_callback false key r = CbOk s loc /\ cb_state r = WEnc 1 c /\ cb_cookie r = Some (WEnc 0 c).
+    oauth_callback false false key r = CbOk s loc /\ cb_state r = WEnc 1 c /\ cb_cookie r = Some (WEnc 0 c).
 Proof. exact distinct_ciphertexts_refuted. Qed.
 Print Assumptions C06_distinct_ciphertexts_refuted.
 
@@ -127,10 +145,10 @@ Print Assumptions C06_escape_no_backslash.
 
 (* Composition: in every admissible history whose flows were started by origin-form requests, the
    Location of an accepted callback is same-site relative (or empty, in the type-confusion case). *)
-Theorem C06_returns_same_site : forall hosts hh canon key evs r s loc,
+Theorem C06_returns_same_site : forall hosts hh canon strict key evs r s loc,
   (forall u, In (EStart u) evs -> exists t h, has_prefix t [47] = true /\ route hosts hh t = RProxy h u) ->
-  admissible canon key init_world (evs ++ [ECallback r]) = true ->
-  oauth_callback canon key r = CbOk s loc ->
+  admissible canon strict key init_world (evs ++ [ECallback r]) = true ->
+  oauth_callback canon strict key r = CbOk s loc ->
   same_site_rel loc = true \/ loc = [].
 Proof. exact returns_same_site. Qed.
 Print Assumptions C06_returns_same_site.
@@ -144,10 +162,10 @@ Theorem C06_monitor_accepts_model_target : forall hosts hh t o,
 Proof. exact target_model_holds. Qed.
 Print Assumptions C06_monitor_accepts_model_target.
 
-Theorem C06_monitor_accepts_model_flow : forall canon started issued r redir o,
+Theorem C06_monitor_accepts_model_flow : forall canon strict started issued r redir o,
   wf_inputs started issued redir (cb_host r) ->
-  flow_mismatch canon r redir o = false ->
-  let j := judge (CFlow canon started issued r redir o) in
-  j = 0 \/ (j = 101 /\ canon = false) \/ j = 102.
+  flow_mismatch canon strict r redir o = false ->
+  let j := judge (CFlow canon strict started issued r redir o) in
+  j = 0 \/ (j = 101 /\ canon = false) \/ (j = 102 /\ strict = false).
 Proof. exact flow_model_judged. Qed.
 Print Assumptions C06_monitor_accepts_model_flow.
